@@ -126,109 +126,129 @@ structure PvAcc (M : Type) where
   i : Nat
   seen : List H
 
+/-- `if atomic.LoadInt32(ai.cancel) != 0 { return nil, 0 }` at the end of a loop iteration -/
+def afterChild {σ : Type} (o : Oracle M) (a : σ) (s : Eng M) : Ctl σ (Res M) × Eng M :=
+  let (c, s) := load o s
+  if c then (.ret (none, 0), s) else (.next a, s)
+
+/-- value of one child in `pvSearch`: the first child with the full window, the others by a zero-window
+scout and a full re-search when the scout value falls strictly inside the window -/
+def pvChild (cpv : PvFn P M) (czw : ZwFn P M) (i : Nat) (child : P) (ply : Nat) (depth : Int)
+    (tail : List M) (α β : Int) (s : Eng M) : Except Err (Res M × Eng M) :=
+  if i > 1 then do
+    let ((ms, v), s) ← czw child (ply + 1) (depth - 1) tail (-α - 1) true s
+    if -v > α && -v < β then
+      cpv child (ply + 1) (depth - 1) tail (-β) (-α) { s with st := { s.st with reSearch := s.st.reSearch + 1 } }
+    else pure ((ms, v), s)
+  else cpv child (ply + 1) (depth - 1) tail (-β) (-α) s
+
 /-- the body of the child loop of `pvSearch` -/
 def pvBody [DecidableEq M] (g : Game P M) (o : Oracle M) (cpv : PvFn P M) (czw : ZwFn P M)
     (ply : Nat) (depth β : Int) (dedup : Bool)
     (m : M) (child : P) (a : PvAcc M) (s : Eng M) : Except Err (Ctl (PvAcc M) (Res M) × Eng M) :=
-  if dedup && a.seen.contains (g.hash child) then .ok (.next a, s) else
+  if dedup && a.seen.contains (g.hash child) then pure (.next a, s) else do
   let a := if dedup then { a with seen := a.seen ++ g.symHashes child } else a
   let a := { a with i := a.i + 1 }
-  match setA s.stackM ply m "stack[ply].m" with
-  | .error e => .error e
-  | .ok sm =>
-  let s := { s with stackM := sm }
-  let tail := a.best.drop 1
-  let r : Except Err (Res M × Eng M) :=
-    if a.i > 1 then
-      match czw child (ply + 1) (depth - 1) tail (-a.α - 1) true s with
-      | .error e => .error e
-      | .ok ((ms, v), s) =>
-        if -v > a.α && -v < β then
-          let s := { s with st := { s.st with reSearch := s.st.reSearch + 1 } }
-          cpv child (ply + 1) (depth - 1) tail (-β) (-a.α) s
-        else .ok ((ms, v), s)
-    else cpv child (ply + 1) (depth - 1) tail (-β) (-a.α) s
-  match r with
-  | .error e => .error e
-  | .ok ((ms, v), s) =>
-  let v := -v
-  let upd : Except Err (PvAcc M × Eng M × Bool) :=
-    if v > a.α then
-      match setA s.pv0 ply m "stack[ply].pv" with
-      | .error e => .error e
-      | .ok pv0 =>
-        let s := { s with pv0 := pv0 }
-        let a := { a with improved := true, best := m :: ms.getD [], α := v }
-        if v ≥ β then
-          match recordCut s m a.i ply with
-          | .error e => .error e
-          | .ok s => .ok (a, s, true)
-        else .ok (a, s, false)
-    else .ok (a, s, false)
-  match upd with
-  | .error e => .error e
-  | .ok (a, s, true) => .ok (.brk a, s)
-  | .ok (a, s, false) =>
-    let (c, s) := load o s
-    if c then .ok (.ret (none, 0), s) else .ok (.next a, s)
+  let sm ← setA s.stackM ply m "stack[ply].m"
+  let r ← pvChild cpv czw a.i child ply depth (a.best.drop 1) a.α β { s with stackM := sm }
+  let ms := r.1.1
+  let v := -r.1.2
+  let s := r.2
+  if v > a.α then do
+    let pv0 ← setA s.pv0 ply m "stack[ply].pv"
+    let s := { s with pv0 := pv0 }
+    let a := { a with improved := true, best := m :: ms.getD [], α := v }
+    if v ≥ β then do
+      let s ← recordCut s m a.i ply
+      pure (.brk a, s)
+    else pure (afterChild o a s)
+  else pure (afterChild o a s)
+
+/-- `best := append(stack[ply].pv[:0], pv...); if len(best) == 0 { best = best[:1] }` -/
+def pvInitBest (ply : Nat) (pv : List M) (s : Eng M) : Except Err (List M × Eng M) :=
+  match pv with
+  | x :: _ => do
+    let pv0 ← setA s.pv0 ply x "stack[ply].pv"
+    pure (pv, { s with pv0 := pv0 })
+  | [] => do
+    let x ← getA s.pv0 ply "stack[ply].pv"
+    pure ([x], s)
+
+/-- the table store at the end of `pvSearch` -/
+def pvStore (o : Oracle M) (hash : H) (depth β : Int) (a : PvAcc M) (s : Eng M) : Except Err (Res M × Eng M) := do
+  let (slot?, s) ← ttPut o s hash
+  match slot? with
+  | none => pure ((some a.best, a.α), s)
+  | some slot =>
+    match s.table[slot]?, a.best with
+    | some old, b0 :: _ =>
+      if old.hash != hash || old.depth ≤ depth then
+        let bound := if !a.improved then Facts.upperBound
+                     else if a.α ≥ β then Facts.lowerBound else Facts.exactBound
+        let s := if !a.improved then { s with st := { s.st with allNodes := s.st.allNodes + 1 } } else s
+        pure ((some a.best, a.α), s.setEntry slot ⟨hash, a.α, b0, bound, depth⟩)
+      else pure ((some a.best, a.α), s)
+    | _, _ => throw (.panic "pvSearch: best[0]")
 
 /-- `pvSearch` with the recursive calls abstracted; `frame = false` models `ply = maxDepth` -/
 def pvNode [DecidableEq M] (g : Game P M) (cfg : Cfg) (o : Oracle M) (frame : Bool)
     (cpv : PvFn P M) (czw : ZwFn P M) : PvFn P M := fun p ply depth pv α β s =>
   let over := g.over p
-  if depth ≤ 0 || over then .ok (leaf g p over s) else
-  if !frame then .error (.panic "ai.stack[ply]: index out of range") else
+  if depth ≤ 0 || over then pure (leaf g p over s) else
+  if !frame then throw (.panic "ai.stack[ply]: index out of range") else do
   let st := { s.st with visited := s.st.visited + 1 }
   let st := if β == α + 1 then { st with scout := st.scout + 1 } else st
   let s := { s with st := st }
   let dedup := cfg.dedupSymmetry && g.moveNumber p < Facts.maxDedup
-  match ttProbe g p ply depth α β s with
-  | .error e => .error e
-  | .ok (.inl r, s) => .ok (r, s)
-  | .ok (.inr te, s) =>
-  -- best := append(stack[ply].pv[:0], pv...); if len(best) == 0 { best = best[:1] }
-  let init : Except Err (List M × Eng M) :=
-    match pv with
-    | x :: _ =>
-      match setA s.pv0 ply x "stack[ply].pv" with
-      | .error e => .error e
-      | .ok pv0 => .ok (pv, { s with pv0 := pv0 })
-    | [] =>
-      match getA s.pv0 ply "stack[ply].pv" with
-      | .error e => .error e
-      | .ok x => .ok ([x], s)
-  match init with
-  | .error e => .error e
-  | .ok (best, s) =>
-  match iterate g cfg o p ⟨ply, depth, te, pv⟩ (pvBody g o cpv czw ply depth β dedup)
-      ⟨α, best, false, 0, []⟩ s with
-  | .error e => .error e
-  | .ok (.ret r, s) => .ok (r, s)
-  | .ok (.next a, s) | .ok (.brk a, s) =>
-    let hash := g.hash p
-    match ttPut o s hash with
-    | .error e => .error e
-    | .ok (none, s) => .ok ((some a.best, a.α), s)
-    | .ok (some slot, s) =>
-      match s.table[slot]?, a.best with
-      | some old, b0 :: _ =>
-        if old.hash != hash || old.depth ≤ depth then
-          let bound := if !a.improved then Facts.upperBound
-                       else if a.α ≥ β then Facts.lowerBound else Facts.exactBound
-          let s := if !a.improved then { s with st := { s.st with allNodes := s.st.allNodes + 1 } } else s
-          .ok ((some a.best, a.α), s.setEntry slot ⟨hash, a.α, b0, bound, depth⟩)
-        else .ok ((some a.best, a.α), s)
-      | _, _ => .error (.panic "pvSearch: best[0]")
+  let (probe, s) ← ttProbe g p ply depth α β s
+  match probe with
+  | .inl r => pure (r, s)
+  | .inr te => do
+    let (best, s) ← pvInitBest ply pv s
+    let (c, s) ← iterate g cfg o p ⟨ply, depth, te, pv⟩ (pvBody g o cpv czw ply depth β dedup)
+      ⟨α, best, false, 0, []⟩ s
+    match c with
+    | .ret r => pure (r, s)
+    | .next a => pvStore o (g.hash p) depth β a s
+    | .brk a => pvStore o (g.hash p) depth β a s
 
 /-! ### zwSearch -/
 
 /-- `nullMoveOK` -/
 def nullMoveOK (g : Game P M) (cfg : Cfg) (ply : Nat) (depth : Int) (p : P) (s : Eng M) : Except Err Bool :=
-  if cfg.noNullMove then .ok false
-  else if ply == 0 || depth < 3 then .ok false
-  else match getA s.stackM (ply - 1) "stack[ply-1].m" with
-    | .error e => .error e
-    | .ok prev => if g.isPass prev then .ok false else .ok (g.nullOK p)
+  if cfg.noNullMove then pure false
+  else if ply == 0 || depth < 3 then pure false
+  else do
+    let prev ← getA s.stackM (ply - 1) "stack[ply-1].m"
+    if g.isPass prev then pure false else pure (g.nullOK p)
+
+/-- the null-move attempt of `zwSearch`: `some r` = return `r` (null-move cut) -/
+def nullMove (g : Game P M) (cfg : Cfg) (czw : ZwFn P M) (p : P) (ply : Nat) (depth α : Int) (s : Eng M) :
+    Except Err (Option (Res M) × Eng M) := do
+  let ok ← nullMoveOK g cfg ply depth p s
+  if !ok then pure (none, s) else do
+  let sm ← setA s.stackM ply g.passMove "stack[ply].m"
+  let s := { s with stackM := sm }
+  match g.apply p g.passMove with
+  | .error (.illegal _) => pure (none, s)
+  | .error e => throw e
+  | .ok child => do
+    let s := { s with st := { s.st with nullSearch := s.st.nullSearch + 1 } }
+    let r ← czw child (ply + 1) (depth - 3) [] (-α - 1) true s
+    let v := -r.1.2
+    if v ≥ α + 1 then
+      pure (some (none, v), { r.2 with st := { r.2.st with nullCut := r.2.st.nullCut + 1 } })
+    else pure (none, r.2)
+
+/-- the slide reduction of `zwSearch`: the depth to go on with -/
+def slideReduction (g : Game P M) (cfg : Cfg) (p : P) (ply : Nat) (depth : Int) (s : Eng M) :
+    Except Err (Int × Eng M) :=
+  if !cfg.noReduceSlides && ply > 0 then do
+    let prev ← getA s.stackM (ply - 1) "stack[ply-1].m"
+    let red ← g.reduceSlide prev p
+    if red then pure (depth - 2, { s with st := { s.st with reducedSlides := s.st.reducedSlides + 1 } })
+    else pure (depth, s)
+  else pure (depth, s)
 
 structure McAcc (M : Type) where
   i : Nat
@@ -238,21 +258,28 @@ structure McAcc (M : Type) where
 /-- body of the multi-cut loop: `m` stays the first yielded move (the loop's post statement drops it) -/
 def mcBody (czw : ZwFn P M) (ply : Nat) (depth α : Int) (cut : Bool)
     (m : M) (child : P) (a : McAcc M) (s : Eng M) : Except Err (Ctl (McAcc M) (Res M) × Eng M) :=
-  if a.i ≥ Facts.multiCutSearch then .ok (.brk a, s) else
+  if a.i ≥ Facts.multiCutSearch then pure (.brk a, s) else do
   let a := { a with i := a.i + 1, first := some (a.first.getD m) }
-  match setA s.stackM ply (a.first.getD m) "stack[ply].m" with
-  | .error e => .error e
-  | .ok sm =>
-  let s := { s with stackM := sm }
-  match czw child (ply + 1) (depth - 1 - 2) [] (-α - 1) (!cut) s with
-  | .error e => .error e
-  | .ok ((_, v), s) =>
-    if -v > α then
-      let a := { a with cuts := a.cuts + 1 }
-      if a.cuts ≥ Facts.multiCutThreshold then
-        .ok (.ret (none, α + 1), { s with st := { s.st with mcCut := s.st.mcCut + 1 } })
-      else .ok (.next a, s)
-    else .ok (.next a, s)
+  let sm ← setA s.stackM ply (a.first.getD m) "stack[ply].m"
+  let r ← czw child (ply + 1) (depth - 1 - 2) [] (-α - 1) (!cut) { s with stackM := sm }
+  let s := r.2
+  if -r.1.2 > α then
+    let a := { a with cuts := a.cuts + 1 }
+    if a.cuts ≥ Facts.multiCutThreshold then
+      pure (.ret (none, α + 1), { s with st := { s.st with mcCut := s.st.mcCut + 1 } })
+    else pure (.next a, s)
+  else pure (.next a, s)
+
+/-- the multi-cut attempt of `zwSearch`: `some r` = return `r` -/
+def multiCut [DecidableEq M] (g : Game P M) (cfg : Cfg) (o : Oracle M) (czw : ZwFn P M) (p : P) (mg : MG M)
+    (α : Int) (cut : Bool) (s : Eng M) : Except Err (Option (Res M) × Eng M) :=
+  if cfg.multiCut && cut && mg.depth > 3 then do
+    let s := { s with st := { s.st with mcSearch := s.st.mcSearch + 1 } }
+    let (c, s) ← iterate g cfg o p mg (mcBody czw mg.ply mg.depth α cut) (⟨0, 0, none⟩ : McAcc M) s
+    match c with
+    | .ret r => pure (some r, s)
+    | _ => pure (none, s)
+  else pure (none, s)
 
 structure ZwAcc (M : Type) where
   best : List M
@@ -261,112 +288,59 @@ structure ZwAcc (M : Type) where
 
 /-- body of the main loop of `zwSearch` -/
 def zwBody [DecidableEq M] (o : Oracle M) (czw : ZwFn P M) (ply : Nat) (depth α : Int) (cut : Bool)
-    (m : M) (child : P) (a : ZwAcc M) (s : Eng M) : Except Err (Ctl (ZwAcc M) (Res M) × Eng M) :=
+    (m : M) (child : P) (a : ZwAcc M) (s : Eng M) : Except Err (Ctl (ZwAcc M) (Res M) × Eng M) := do
   let a := { a with i := a.i + 1 }
-  match setA s.stackM ply m "stack[ply].m" with
-  | .error e => .error e
-  | .ok sm =>
-  let s := { s with stackM := sm }
-  match czw child (ply + 1) (depth - 1) (a.best.drop 1) (-α - 1) (!cut) s with
-  | .error e => .error e
-  | .ok ((ms, v), s) =>
-    let v := -v
-    if v > α then
-      match recordCut s m a.i ply with
-      | .error e => .error e
-      | .ok s =>
-        match setA s.pv0 ply m "stack[ply].pv" with
-        | .error e => .error e
-        | .ok pv0 => .ok (.brk { a with best := m :: ms.getD [], didCut := true }, { s with pv0 := pv0 })
-    else
-      let (c, s) := load o s
-      if c then .ok (.ret (none, 0), s) else .ok (.next a, s)
+  let sm ← setA s.stackM ply m "stack[ply].m"
+  let r ← czw child (ply + 1) (depth - 1) (a.best.drop 1) (-α - 1) (!cut) { s with stackM := sm }
+  let s := r.2
+  if -r.1.2 > α then do
+    let s ← recordCut s m a.i ply
+    let pv0 ← setA s.pv0 ply m "stack[ply].pv"
+    pure (.brk { a with best := m :: r.1.1.getD [], didCut := true }, { s with pv0 := pv0 })
+  else pure (afterChild o a s)
+
+/-- the table store at the end of `zwSearch` -/
+def zwStore (o : Oracle M) (hash : H) (depth α : Int) (a : ZwAcc M) (s : Eng M) : Except Err (Res M × Eng M) := do
+  let out : Res M := (some a.best, if a.didCut then α + 1 else α)
+  let (slot?, s) ← ttPut o s hash
+  match slot? with
+  | none => pure (out, s)
+  | some slot =>
+    match a.best with
+    | b0 :: _ =>
+      let bound := if a.didCut then Facts.lowerBound else Facts.upperBound
+      let s := if a.didCut then s else { s with st := { s.st with allNodes := s.st.allNodes + 1 } }
+      pure (out, s.setEntry slot ⟨hash, α, b0, bound, depth⟩)
+    | [] => throw (.panic "zwSearch: best[0]")
 
 /-- `zwSearch` with the recursive call abstracted -/
 def zwNode [DecidableEq M] (g : Game P M) (cfg : Cfg) (o : Oracle M) (frame : Bool)
     (czw : ZwFn P M) : ZwFn P M := fun p ply depth pv α cut s =>
   let over := g.over p
-  if depth ≤ 0 || over then .ok (leaf g p over s) else
-  if !frame then .error (.panic "ai.stack[ply]: index out of range") else
+  if depth ≤ 0 || over then pure (leaf g p over s) else
+  if !frame then throw (.panic "ai.stack[ply]: index out of range") else do
   let s := { s with st := { s.st with visited := s.st.visited + 1, scout := s.st.scout + 1 } }
-  match ttProbe g p ply depth α (α + 1) s with
-  | .error e => .error e
-  | .ok (.inl r, s) => .ok (r, s)
-  | .ok (.inr te, s) =>
-  -- null move
-  let nm : Except Err (Option (Res M) × Eng M) :=
-    match nullMoveOK g cfg ply depth p s with
-    | .error e => .error e
-    | .ok false => .ok (none, s)
-    | .ok true =>
-      match setA s.stackM ply g.passMove "stack[ply].m" with
-      | .error e => .error e
-      | .ok sm =>
-        let s := { s with stackM := sm }
-        match g.apply p g.passMove with
-        | .error (.illegal _) => .ok (none, s)
-        | .error e => .error e
-        | .ok child =>
-          let s := { s with st := { s.st with nullSearch := s.st.nullSearch + 1 } }
-          match czw child (ply + 1) (depth - 3) [] (-α - 1) true s with
-          | .error e => .error e
-          | .ok ((_, v), s) =>
-            let v := -v
-            if v ≥ α + 1 then
-              .ok (some (none, v), { s with st := { s.st with nullCut := s.st.nullCut + 1 } })
-            else .ok (none, s)
-  match nm with
-  | .error e => .error e
-  | .ok (some r, s) => .ok (r, s)
-  | .ok (none, s) =>
-  -- slide reduction
-  let red : Except Err (Int × Eng M) :=
-    if !cfg.noReduceSlides && ply > 0 then
-      match getA s.stackM (ply - 1) "stack[ply-1].m" with
-      | .error e => .error e
-      | .ok prev =>
-        match g.reduceSlide prev p with
-        | .error e => .error e
-        | .ok true => .ok (depth - 2, { s with st := { s.st with reducedSlides := s.st.reducedSlides + 1 } })
-        | .ok false => .ok (depth, s)
-    else .ok (depth, s)
-  match red with
-  | .error e => .error e
-  | .ok (depth, s) =>
-  let mg : MG M := ⟨ply, depth, te, pv⟩
-  -- multi-cut
-  let mc : Except Err (Option (Res M) × Eng M) :=
-    if cfg.multiCut && cut && depth > 3 then
-      let s := { s with st := { s.st with mcSearch := s.st.mcSearch + 1 } }
-      match iterate g cfg o p mg (mcBody czw ply depth α cut) (⟨0, 0, none⟩ : McAcc M) s with
-      | .error e => .error e
-      | .ok (.ret r, s) => .ok (some r, s)
-      | .ok (_, s) => .ok (none, s)
-    else .ok (none, s)
-  match mc with
-  | .error e => .error e
-  | .ok (some r, s) => .ok (r, s)
-  | .ok (none, s) =>
-  -- best := stack[ply].pv[:0]; best = best[:1]
-  match getA s.pv0 ply "stack[ply].pv" with
-  | .error e => .error e
-  | .ok x =>
-  match iterate g cfg o p mg (zwBody o czw ply depth α cut) (⟨[x], 0, false⟩ : ZwAcc M) s with
-  | .error e => .error e
-  | .ok (.ret r, s) => .ok (r, s)
-  | .ok (.next a, s) | .ok (.brk a, s) =>
-    let hash := g.hash p
-    let out : Res M := (some a.best, if a.didCut then α + 1 else α)
-    match ttPut o s hash with
-    | .error e => .error e
-    | .ok (none, s) => .ok (out, s)
-    | .ok (some slot, s) =>
-      match a.best with
-      | b0 :: _ =>
-        let bound := if a.didCut then Facts.lowerBound else Facts.upperBound
-        let s := if a.didCut then s else { s with st := { s.st with allNodes := s.st.allNodes + 1 } }
-        .ok (out, s.setEntry slot ⟨hash, α, b0, bound, depth⟩)
-      | [] => .error (.panic "zwSearch: best[0]")
+  let (probe, s) ← ttProbe g p ply depth α (α + 1) s
+  match probe with
+  | .inl r => pure (r, s)
+  | .inr te => do
+    let (nm, s) ← nullMove g cfg czw p ply depth α s
+    match nm with
+    | some r => pure (r, s)
+    | none => do
+      let (depth, s) ← slideReduction g cfg p ply depth s
+      let mg : MG M := ⟨ply, depth, te, pv⟩
+      let (mc, s) ← multiCut g cfg o czw p mg α cut s
+      match mc with
+      | some r => pure (r, s)
+      | none => do
+        -- best := stack[ply].pv[:0]; best = best[:1]
+        let x ← getA s.pv0 ply "stack[ply].pv"
+        let (c, s) ← iterate g cfg o p mg (zwBody o czw ply depth α cut) (⟨[x], 0, false⟩ : ZwAcc M) s
+        match c with
+        | .ret r => pure (r, s)
+        | .next a => zwStore o (g.hash p) depth α a s
+        | .brk a => zwStore o (g.hash p) depth α a s
 
 /-- `(pvSearch, zwSearch)` able to use `n` more frames of `ai.stack` -/
 def search [DecidableEq M] (g : Game P M) (cfg : Cfg) (o : Oracle M) : Nat → PvFn P M × ZwFn P M
